@@ -26,6 +26,7 @@ LEVEL = 'fault_enumeration'
 MC = '''SPECIFICATION Spec
 CONSTANTS K = %d
 Direct = %s
+Fallback = %s
 INVARIANT FailedWriteIsNoop
 INVARIANT UntouchedWhileEncoding
 INVARIANT Completes
@@ -74,7 +75,7 @@ def writers():
             'astecho': (lua.LuaASTEchoWriter, {})}
 
 
-def run_write(path, fmtname, game, writer, fail_at=None, internal=None, j=1):
+def run_write(path, fmtname, game, writer, fail_at=None, internal=None, j=1, no_tmp=False):
     """One observed write. Returns the trace record and the write count."""
     from pico8.game import file as gfile
     from pico8.game.formatter import p8, p8png
@@ -144,6 +145,13 @@ def run_write(path, fmtname, game, writer, fail_at=None, internal=None, j=1):
     cls.to_file = classmethod(patched)
     _AUDIT.update(on=True, path=os.path.abspath(path), events=[])
     raised = None
+    if no_tmp:
+        # environment fault: no usable temp directory while the cart is written
+        saved_tmp = (tempfile.tempdir, os.environ.get('TMPDIR'))
+        tempfile.tempdir = os.path.join(os.path.dirname(path), 'no', 'such', 'tmpdir')
+        os.environ['TMPDIR'] = tempfile.tempdir
+        undo.append(lambda: (setattr(tempfile, 'tempdir', saved_tmp[0]),
+                             os.environ.pop('TMPDIR', None) if saved_tmp[1] is None else os.environ.__setitem__('TMPDIR', saved_tmp[1])))
     try:
         gfile.to_file(game, path, lua_writer_cls=wcls, lua_writer_args=wargs, **kwargs)
     except BaseException as e:  # noqa
@@ -178,8 +186,9 @@ def run(ctx):
                 'plus luafmt --overwrite and build over its own source; non-trivial = a fault was injected and the execution was judged')
     ctx.assumptions = ['observation: sys.addaudithook open events on the destination path + byte snapshots before / after',
                        'failures during the final copy to the destination (disk full) are outside the statement (it speaks of failures while producing the cart)']
-    ctx.model_check('FileWrite', MC % (5, 'FALSE'), name='MC_FileWrite')
-    ctx.model_check('FileWrite', MC % (3, 'TRUE'), name='MC_FileWrite_direct_write_mutant', expect_violation=('FailedWriteIsNoop', 'UntouchedWhileEncoding'))
+    ctx.model_check('FileWrite', MC % (5, 'FALSE', 'FALSE'), name='MC_FileWrite')
+    ctx.model_check('FileWrite', MC % (3, 'TRUE', 'FALSE'), name='MC_FileWrite_direct_write_mutant', expect_violation=('FailedWriteIsNoop', 'UntouchedWhileEncoding'))
+    ctx.model_check('FileWrite', MC % (3, 'FALSE', 'TRUE'), name='MC_FileWrite_fallback_mutant', expect_violation=('FailedWriteIsNoop', 'UntouchedWhileEncoding'))
     d = tempfile.mkdtemp(prefix='c11_', dir=ctx.tmp)
     game = sample_cart()
     old_bytes = {'p8': None, 'png': None}
@@ -227,6 +236,14 @@ def run(ctx):
                     rec, _, raised = run_write(path, fmtname, game, wname, internal=src, j=j)
                     traces.append(rec)
                     meta.append(('%s/%s/%s/%s@%d' % (fmtname, dest0, wname, src, j), raised))
+                    n_run += 1
+                # the same with no usable temp directory (TempUnavailable in FileWrite.tla): alone, and together with a production fault
+                for k2, src, j in ((None, None, 1), (1, None, 1), (min(K, 9), None, 1), (None, 'writer-raises', 2), (None, 'section-raises', 3)) + \
+                        (((None, 'writer-unparseable', 0),) if fmtname == 'p8' else ((None, 'png-encoder-raises', 0),)):
+                    reset()
+                    rec, _, raised = run_write(path, fmtname, game, wname, fail_at=k2, internal=src, j=j, no_tmp=True)
+                    traces.append(rec)
+                    meta.append(('%s/%s/%s/no-tmpdir+%s' % (fmtname, dest0, wname, src or ('k=%s' % k2)), raised))
                     n_run += 1
     cli_traces(ctx, d, traces, meta)
     cli_multi(ctx, d, traces, meta)
